@@ -28,7 +28,8 @@ RULE = ("headers built from the DECam TPV template of the suite reduced to WCS c
         "radius. Pixels: corners, CRPIX, uniform in the image; scalars and arrays. Histories: 2-8 calls of "
         "image2sky / sky2image(find, distort, xtol) / get_jacobian on one object. Non-trivial: a header with "
         "distortion, or CRVAL within 1 deg of a pole or of RA=0, or CRPIX outside the image; a history with "
-        ">= 1 inverse call before a forward call. Distinct = distinct case JSON.")
+        ">= 1 inverse call before a forward call. Distinct = distinct case JSON."
+        " Pixel arrays as f8/f4/>f8/>f4/i4; histories may pass xtol= and one history in three uses one fixed array length; arrays returned by earlier calls must keep their values.")
 ASSUMPTIONS = [
     "headers are dicts with lower-case keys (the documented dictionary form); LONPOLE/LATPOLE absent "
     "(defaults 180/90)",
